@@ -1,0 +1,6 @@
+//go:build verif && !amd64
+
+package dsp
+
+// VerifArchForceSSE2: nothing to switch without amd64 assembly.
+func VerifArchForceSSE2() bool { return false }
